@@ -220,7 +220,8 @@ KaBegin(x, l) ==
 
 KaOk(x, l) ==
   /\ ka[x][l] = "busy"
-  /\ ka' = [ka EXCEPT ![x][l] = IF rd[x][l] = "run" THEN "run" ELSE "done"]   \* closed meanwhile: conn.Done() ends the loop
+  /\ alive[l]                                   \* a write on a closed link can only fail (KaFail)
+  /\ ka' = [ka EXCEPT ![x][l] = "run"]
   /\ last' = [act |-> "KaOk", x |-> x, l |-> l]
   /\ UNCHANGED <<nl, dialer, hs, alive, reg, st, rd, advq, rt, rl, nann, napi, nrel, nka>>
 
